@@ -5,18 +5,18 @@ from vlib.diff import Case, differential
 
 LEVEL = "proof"
 # C functions this check's models mirror (source-text fingerprints are recorded in the evidence, see translate/funchash.py)
-MODELLED_FUNCS = {'src/utils/iwhmap.c': ['iwhmap_put', 'iwhmap_get', 'iwhmap_remove', 'iwhmap_clear', '_lru_entry_update', '_rehash'], 'src/utils/iwarr.c': ['iwulist_insert', 'iwulist_remove', 'iwulist_clone', 'iwlist_unshift', 'iwlist_clone', 'iwarr_sorted_insert', 'iwarr_sorted_remove'], 'src/utils/iwavl.h': ['iwavl_insert', 'iwavl_lookup_bounds'], 'src/utils/iwavl.c': ['iwavl_remove'], 'src/utils/iwrb.c': ['iwrb_put', 'iwrb_back', 'iwrb_peek', 'iwrb_iter_init', 'iwrb_iter_prev'], 'src/utils/iwxstr.c': ['iwxstr_cat', 'iwxstr_unshift', 'iwxstr_shift', 'iwxstr_pop', 'iwxstr_insert', 'iwxstr_printf_va', 'iwxstr_insert_vaprintf'], 'src/utils/iwpool.c': ['iwpool_alloc', 'iwpool_split_string', 'iwpool_printf_split', 'iwpool_user_data_set', '_parent_remove_child', 'iwpool_destroy']}
+MODELLED_FUNCS = {'src/utils/iwhmap.c': ['iwhmap_put', 'iwhmap_get', 'iwhmap_remove', 'iwhmap_clear', '_lru_entry_update', '_rehash'], 'src/utils/iwarr.c': ['iwulist_insert', 'iwulist_remove', 'iwulist_clone', 'iwlist_unshift', 'iwlist_clone', 'iwarr_sorted_insert', 'iwarr_sorted_remove'], 'src/utils/iwavl.h': ['iwavl_insert', 'iwavl_lookup_bounds'], 'src/utils/iwavl.c': ['iwavl_remove'], 'src/utils/iwrb.c': ['iwrb_put', 'iwrb_back', 'iwrb_peek', 'iwrb_iter_init', 'iwrb_iter_prev'], 'src/utils/iwxstr.c': ['iwxstr_cat', 'iwxstr_unshift', 'iwxstr_shift', 'iwxstr_pop', 'iwxstr_insert', 'iwxstr_printf_va', 'iwxstr_insert_vaprintf'], 'src/utils/iwpool.c': ['iwpool_alloc', 'iwpool_split_string', 'iwpool_printf_split', 'iwpool_user_data_set', '_parent_remove_child', 'iwpool_destroy', 'iwpool_ref', 'iwpool_create_attach']}
 MANIFEST = dict(
     level="proof",
     text=("Lean 4 theorems over executable mechanism models of iwhmap (buckets, step growth, rehash up/down, LRU list and eviction "
           "loop), iwulist/iwlist (window arithmetic, growth/shrink, bounds-instrumented memmove), the sorted-array binary search, the "
           "AVL tree (rotation cases of insert and remove, lookup_bounds), the ring buffer (put/back/clear with the iterator loop), iwxstr "
           "statement by statement (buffer cells, memmove, terminator stores, the 1024-byte vsnprintf buffer switch of the print functions) and "
-          "iwpool (bump allocation, the split_string scan with its trimming loops, child pools and user data): each refines its plain reference "
+          "iwpool (bump allocation, the split_string scan with its trimming loops, child pools with their own reference counts, the orphans a destroyed parent leaves behind, user data): each refines its plain reference "
           "(association list + recency list, List, sorted permutation, BST set, two-list ring, byte list, List.splitOnP) for all call sequences, "
           "with bucket/array/buffer bounds as invariants, and one global theorem freed_exactly_once (multiset of elements given to the free "
           "callbacks = multiset of owned elements inserted and not handed back, over any history ending in destroy, for hash map, iwlist, xstr "
-          "and pool user data, child pools); the models are tied to the code by differential runs of "
+          "and pool user data, child pools incl. references on children and orphans); the models are tied to the code by differential runs of "
           "random call sequences (colliding hashes, eviction, threshold crossings) against the compiled Lean definitions, an independent "
           "python reference as oracle, a logged free callback, a heap balance at destroy and ASan"),
     note=("trusted: Lean kernel, translator, harness/generator, gcc+ASan/UBSan; modelled not verified: the C control flow of the functions "
